@@ -47,10 +47,16 @@ class ComplexVal:
 
 class Maybe:
     """An undecided boolean."""
-    __slots__ = ("desc",)
+    __slots__ = ("desc", "generic")
 
-    def __init__(self, desc=""):
+    def __init__(self, desc="", generic=None):
         self.desc = desc
+        # for equality tests between reals: the decision value that holds generically
+        # (everywhere except on a measure-zero subset of the region); None otherwise
+        self.generic = generic
+
+    def negated(self):
+        return Maybe("not " + self.desc, None if self.generic is None else (not self.generic))
 
     def __repr__(self):
         return f"<maybe {self.desc}>"
